@@ -234,4 +234,4 @@ Example C08_cache_cleared_by_delete :
   a_cache s6 = Some ((fA, 3), (fA, 2)) /\ a_cache s7 = None /\ snd (adf_read 8 s7 (fA, 3) 1) = AErr ELinkTarget.
 Proof. exact cache_cleared_by_delete. Qed.
 Example C08_cache_sane_initially : forall d, cache_sane d rs0.
-Proof. intros d. exact I. Qed.
+Proof. exact cache_sane_initially. Qed.
